@@ -9,13 +9,13 @@ from kfv.rules import coh_rules as C
 from kfv.rules import precond_rules as R
 
 TECHNIQUE = ('ownership (who-may-write) of second-order slots, role guards of compute/broadcast/precondition call sites, '
-             'group-argument coherence, exhaustiveness of memory accounting over declared tensor slots, complementary hook/step guards')
+             'group-argument coherence, exhaustiveness of memory accounting over declared tensor slots, complementary hook/step guards; cache-coherence rule; configuration-forwarding rule (symmetry_aware etc. reach every layer type)')
 EXPLANATION = (
     'Second-order slots are written only by compute_*_inv / broadcast_*_inv; in step() the former run only where '
     'get_rank()==inv_worker(name,X), the latter only under broadcast_inverses() and is_grad_worker(name) on '
     'grad_worker_group(name); gradients are broadcast on grad_receiver_group(name) under broadcast_gradients(); factors are '
     'reduced once per factor and factor step over factor_group(name,X).  The strategy flags are the specified comparisons. '
-    'Every declared tensor slot is counted in memory_usage().  Byte counts as numbers are not decided.')
+    'Every declared tensor slot is counted in memory_usage().  Byte counts as numbers are not decided. memory_usage() is evaluated symbolically in the all-set / all-None worlds (each slot counted exactly once, None-safe); every base-layer option is forwarded unconditionally (CFG-FWD); cached state is invalidated (MEMO-*).')
 
 NOT_DECIDED = 'byte counts as numbers'
 
